@@ -112,6 +112,12 @@ pub fn path_class(graph: &ModuleGraph, s: &ModuleSpecifier) -> &'static str {
 /// the walk (entries first) are known to disagree wholesale, the signature is
 /// the class alone; elsewhere it names the API and what the walk reached.
 fn sig(fine: String, class: &str) -> String {
+  // the recorded cycle finding is one direction only: the walk (entries first) reaches the error entry that
+  // sits on a cycle member and the lookups (redirect table first) miss it. The opposite direction - the walk
+  // reaches nothing where a lookup returns an entry - is a different defect
+  if class == "cycle" && (fine.contains("/walk=nothing/") || fine.starts_with("listing-vs-walk/extra/")) {
+    return format!("walk-misses-what-lookups-return/cycle/{}", fine.split('/').nth(1).unwrap_or(""));
+  }
   match class {
     "cycle" | "slot-shadowed" | "slot-shadowed-behind-a-seeded-hop-by-rejected-import" => format!("lookups-disagree-with-walk/{}", class),
     _ => fine,
@@ -126,6 +132,9 @@ enum Terminal {
   External,
   CycleTo(usize),
   ModuleOtherFinal,
+  /// a module that does not parse, answered under the requested / under another final specifier
+  Broken,
+  BrokenOtherFinal,
 }
 
 #[derive(Clone, Debug)]
@@ -164,6 +173,19 @@ fn build_case(c: &Case) -> (World, Vec<String>, String) {
     }
     Terminal::CycleTo(k) => {
       w.add(&last, Resp::Redirect(r(c.scheme, *k)));
+    }
+    Terminal::Broken => {
+      w.add_text(&last, "export const = ;;; not ( javascript");
+    }
+    Terminal::BrokenOtherFinal => {
+      w.add(
+        &last,
+        Resp::Module {
+          headers: vec![],
+          content: b"export const = ;;; not ( javascript".to_vec(),
+          final_spec: Some(format!("{}://h.test/final.ts", c.scheme)),
+        },
+      );
     }
     Terminal::ModuleOtherFinal => {
       w.add(
@@ -474,6 +496,8 @@ pub fn run(tier: Tier, seed: u64) -> i32 {
       Terminal::Err,
       Terminal::External,
       Terminal::ModuleOtherFinal,
+      Terminal::Broken,
+      Terminal::BrokenOtherFinal,
     ];
     for k in 0..=hops {
       if hops - k < 6 {
@@ -519,11 +543,13 @@ pub fn run(tier: Tier, seed: u64) -> i32 {
       };
       lock.push((r("https", from), to));
     }
-    let terminal = match rng.below(5) {
+    let terminal = match rng.below(7) {
       0 => Terminal::Module,
       1 => Terminal::Missing,
       2 => Terminal::Err,
       3 => Terminal::CycleTo(rng.range(0, hops)),
+      4 => Terminal::Broken,
+      5 => Terminal::BrokenOtherFinal,
       _ => Terminal::ModuleOtherFinal,
     };
     cases.push(Case {
